@@ -1,0 +1,57 @@
+//go:build verif
+
+package scanner
+
+import (
+	"github.com/z7zmey/php-parser/pkg/conf"
+	"github.com/z7zmey/php-parser/pkg/token"
+)
+
+// Verification hooks (build tag `verif`): exported access to the unexported
+// lexer glue so that an external correspondence harness can run each helper
+// on an arbitrary glue state. Nothing here is compiled without the tag.
+
+// VerifState is the part of the lexer state the glue helpers read or write.
+type VerifState struct {
+	P, Pe, Cs, Ts, Te, Act, Top int
+	Stack                       []int
+	HeredocLabel                []byte
+}
+
+func VerifNewLexer(data []byte, config conf.Config, st VerifState) *Lexer {
+	lex := NewLexer(data, config)
+	lex.p, lex.ts, lex.te, lex.top = st.P, st.Ts, st.Te, st.Top
+	if st.Stack != nil {
+		lex.stack = append([]int(nil), st.Stack...)
+	}
+	lex.heredocLabel = st.HeredocLabel
+	return lex
+}
+
+func (lex *Lexer) VerifState() VerifState {
+	return VerifState{P: lex.p, Pe: lex.pe, Cs: lex.cs, Ts: lex.ts, Te: lex.te, Act: lex.act, Top: lex.top,
+		Stack: append([]int(nil), lex.stack...), HeredocLabel: lex.heredocLabel}
+}
+
+func (lex *Lexer) VerifIsNotStringVar() bool            { return lex.isNotStringVar() }
+func (lex *Lexer) VerifIsNotStringEnd(s byte) bool      { return lex.isNotStringEnd(s) }
+func (lex *Lexer) VerifIsHeredocEnd(p int) bool         { return lex.isHeredocEnd(p) }
+func (lex *Lexer) VerifIsHeredocEndBefore73(p int) bool { return lex.isHeredocEndBefore73(p) }
+func (lex *Lexer) VerifIsHeredocEndSince73(p int) bool  { return lex.isHeredocEndSince73(p) }
+func (lex *Lexer) VerifIsNotPhpCloseToken() bool        { return lex.isNotPhpCloseToken() }
+func (lex *Lexer) VerifIsNotNewLine() bool              { return lex.isNotNewLine() }
+func (lex *Lexer) VerifCall(state, fnext int)           { lex.call(state, fnext) }
+func (lex *Lexer) VerifRet(n int)                       { lex.ret(n) }
+func (lex *Lexer) VerifGrowCallStack()                  { lex.growCallStack() }
+func (lex *Lexer) VerifUngetStr(s string)               { lex.ungetStr(s) }
+func (lex *Lexer) VerifUngetCnt(n int)                  { lex.ungetCnt(n) }
+func (lex *Lexer) VerifSetTokenPosition(t *token.Token) { lex.setTokenPosition(t) }
+func (lex *Lexer) VerifAddFreeFloatingToken(t *token.Token, id token.ID, ps, pe int) {
+	lex.addFreeFloatingToken(t, id, ps, pe)
+}
+func (lex *Lexer) VerifError(msg string)          { lex.error(msg) }
+func (lex *Lexer) VerifNewLinesAppend(p int)      { lex.newLines.Append(p) }
+func (lex *Lexer) VerifNewLinesGetLine(p int) int { return lex.newLines.GetLine(p) }
+func (lex *Lexer) VerifNewLinesData() []int       { return append([]int(nil), lex.newLines.data...) }
+func VerifIsValidVarNameStart(r byte) bool        { return isValidVarNameStart(r) }
+func VerifIsValidVarName(r byte) bool             { return isValidVarName(r) }
